@@ -9,6 +9,7 @@
    array/struct nodes ns" (references stored in fields are leaves of d: their identity, not their target). *)
 From Coq Require Import List ZArith Bool Arith.
 From Verif Require Import Model.C07_Heap Model.C07_Ops Proofs.C07_Clone Proofs.C07_Slices Proofs.C07_Memmove.
+From Verif Require Import Model.C07_Decision Proofs.C07_P4_Decision Proofs.C07_P4_Overlap.
 Import ListNotations.
 
 (* $clone(src, T) for ANY nested array/struct shape T: it succeeds, the clone's deep value is the source's, and the
@@ -140,6 +141,164 @@ Theorem C07_copy_slice_overlap_partial : forall cp h a ty cells dO sO n h',
               if (Nat.leb dO p && Nat.ltb p (dO + n))%bool then nth_error cells (sO + (p - dO)) else nth_error cells p.
 Proof. exact copy_array_memmove. Qed.
 Print Assumptions C07_copy_slice_overlap_partial.
+
+(* ---------------------------------------------------------------- phase 4 *)
+
+(* copy(dst, src) / append(s, s[i:]...) on ONE backing array with overlapping windows, elements that ARE arrays or
+   structs (closes what C07_copy_slice_overlap_partial leaves open): $copyArray succeeds, the array keeps its element
+   objects (cells and node set ns unchanged, so pointers to elements stay valid) and it is memmove on DEEP VALUES —
+   every destination element ends with the ORIGINAL deep value of its source element, in both loop directions, for
+   any nesting of the element type; nothing outside the element nodes changes.  [NoDup ns] = the elements of the
+   backing array own pairwise disjoint nodes (invariant of every array built by the prelude). *)
+Theorem C07_copy_slice_overlap_nodes : forall e h a cells ds ns dO sO n,
+  is_node e = true -> wf h ->
+  lookup h a = Some (OArr false cells) ->
+  RL h (repeat e (length cells)) cells ds ns -> NoDup ns -> ~ In a ns ->
+  sO + n <= length cells -> dO + n <= length cells ->
+  exists h' ds',
+    copy_array (copy e) true h a a dO sO n = Some h' /\
+    wf h' /\
+    lookup h' a = Some (OArr false cells) /\
+    RL h' (repeat e (length cells)) cells ds' ns /\
+    length ds' = length ds /\
+    (forall p, nth_error ds' p =
+               if (Nat.leb dO p && Nat.ltb p (dO + n))%bool then nth_error ds (sO + (p - dO)) else nth_error ds p) /\
+    (forall l, ~ In l ns -> lookup h' l = lookup h l).
+Proof. exact copy_array_overlap_nodes. Qed.
+Print Assumptions C07_copy_slice_overlap_nodes.
+
+(* append WITHIN capacity refines Go's append for every element type (together with C07_append_in_place and
+   C07_append_realloc this is the full refinement): it succeeds, the header is the longer window onto the same array,
+   positions o+l .. o+l+n-1 receive the deep values of src[off .. off+n-1] (copied INTO the array's own element
+   nodes ns), every other element keeps its deep value and nothing outside the array and its element nodes changes.
+   src <> a: any element type (operands of append(s, v...) / another slice); src = a (append(s[:i], s[j:]...)): array
+   or struct elements via C07_copy_slice_overlap_nodes; src = a with leaf elements is the next theorem. *)
+Theorem C07_append_refines_in_place : forall e h a o l c src off n dt cells ds ns st scells dss nsrc,
+  wf h -> (0 < n)%Z -> (l + n <= c)%Z ->
+  lookup h a = Some (OArr dt cells) ->
+  RL h (repeat e (length cells)) cells ds ns -> NoDup ns -> ~ In a ns ->
+  lookup h src = Some (OArr st scells) -> (st = true -> is_node e = false) ->
+  RL h (repeat e (length scells)) scells dss nsrc ->
+  Z.to_nat (o + l) + Z.to_nat n <= length cells -> Z.to_nat off + Z.to_nat n <= length scells ->
+  (src = a -> is_node e = true) ->
+  (src <> a -> ~ In src ns /\ ~ In a nsrc /\ (forall x, In x ns -> ~ In x nsrc)) ->
+  exists h' cells' ds',
+    internal_append e h (SHdr a o l c) src off n = Some (SHdr a o (l + n) c, h') /\
+    wf h' /\
+    lookup h' a = Some (OArr dt cells') /\ length cells' = length cells /\
+    RL h' (repeat e (length cells')) cells' ds' ns /\ length ds' = length ds /\
+    (forall p, nth_error ds' p =
+               if (Nat.leb (Z.to_nat (o + l)) p && Nat.ltb p (Z.to_nat (o + l) + Z.to_nat n))%bool
+               then nth_error dss (Z.to_nat off + (p - Z.to_nat (o + l))) else nth_error ds p) /\
+    (forall x, x <> a -> ~ In x ns -> lookup h' x = lookup h x).
+Proof. exact append_in_place_content. Qed.
+Print Assumptions C07_append_refines_in_place.
+
+Theorem C07_append_refines_in_place_self_leaf : forall e h a o l c off n dt cells,
+  is_node e = false -> (0 < n)%Z -> (l + n <= c)%Z ->
+  lookup h a = Some (OArr dt cells) ->
+  Z.to_nat (o + l) + Z.to_nat n <= length cells -> Z.to_nat off + Z.to_nat n <= length cells ->
+  exists h' cells',
+    internal_append e h (SHdr a o l c) a off n = Some (SHdr a o (l + n) c, h') /\
+    lookup h' a = Some (OArr dt cells') /\ length cells' = length cells /\
+    (forall p, nth_error cells' p =
+               if (Nat.leb (Z.to_nat (o + l)) p && Nat.ltb p (Z.to_nat (o + l) + Z.to_nat n))%bool
+               then nth_error cells (Z.to_nat off + (p - Z.to_nat (o + l))) else nth_error cells p) /\
+    (forall x, x <> a -> lookup h' x = lookup h x).
+Proof. exact append_in_place_content_self_leaf. Qed.
+Print Assumptions C07_append_refines_in_place_self_leaf.
+
+(* the hypotheses of the two theorems above are satisfiable for every array/struct element type and every length *)
+Theorem C07_overlap_hypotheses_satisfiable : forall e k,
+  is_node e = true ->
+  exists h a cells ds ns,
+    wf h /\ lookup h a = Some (OArr false cells) /\ length cells = k /\
+    RL h (repeat e (length cells)) cells ds ns /\ NoDup ns /\ ~ In a ns.
+Proof. exact overlap_hypotheses_satisfiable. Qed.
+Print Assumptions C07_overlap_hypotheses_satisfiable.
+
+(* THE TRANSLATOR'S COPY DECISIONS (Model/C07_Decision.v mirrors translateAssign / translateImplicitConversionWithCloning /
+   translateArgs / makeReceiver / CompositeLit / SendStmt / RangeStmt / translateResults; tied site by site to the
+   JavaScript the real compiler emits).  Complete case analysis over the finite domain 45 contexts x 8 type shapes x
+   13 expression classes.
+   In every context where Go's semantics stores a copy of a struct/array value ([stores]) and the JavaScript object the
+   source expression evaluates to may stay reachable ([may_alias]: variables, fields, elements, *p, m[k], i.(T), and
+   call results because `return` does not clone), the translator emits a $clone or a T.copy or hands the value to a
+   run-time helper that copies ($append) — outside the three recorded findings ([finding]). *)
+Theorem C07_clone_decision_sound : forall c sh e,
+  underlying_value sh = true -> stores c = true -> finding c = false -> may_alias e = true ->
+  copies_value c sh e = true.
+Proof. exact clone_decision_sound. Qed.
+Print Assumptions C07_clone_decision_sound.
+
+(* the unrestricted statement is kept visible; the faithful model refutes it with one witness per recorded finding *)
+Definition C07_clone_decision_full_statement : Prop := forall c sh e,
+  valid c sh e = true -> underlying_value sh = true -> stores c = true -> may_alias e = true -> copies_value c sh e = true.
+
+(* `var i any = s` (box-into-interface-does-not-copy) *)
+Theorem C07_clone_decision_box_refuted :
+  valid CBoxAssign ShNamedStruct EVar = true /\ stores CBoxAssign = true /\ may_alias EVar = true /\
+  copies_value CBoxAssign ShNamedStruct EVar = false /\ ~ C07_clone_decision_full_statement.
+Proof. exact box_refuted_witness. Qed.
+(* `for i, v := range arr` (range-over-array-value-does-not-copy) *)
+Theorem C07_clone_decision_range_refuted :
+  valid CRangeExprArray ShNamedArray EVar = true /\ stores CRangeExprArray = true /\
+  copies_value CRangeExprArray ShNamedArray EVar = false /\ ~ C07_clone_decision_full_statement.
+Proof. exact range_refuted_witness. Qed.
+(* `var k I = &a; k.M()` with a value-receiver M (value-receiver-indirect-call-does-not-copy) *)
+Theorem C07_clone_decision_receiver_refuted :
+  valid CIfacePtrCall ShNamedStruct EDeref = true /\ stores CIfacePtrCall = true /\
+  copies_value CIfacePtrCall ShNamedStruct EDeref = false /\ ~ C07_clone_decision_full_statement.
+Proof. exact receiver_refuted_witness. Qed.
+Print Assumptions C07_clone_decision_receiver_refuted.
+
+(* the findings are exactly the storing contexts that never copy *)
+Theorem C07_finding_iff_never_copies : forall c,
+  stores c = true -> (finding c = true <-> forall sh e, copies_value c sh e = false).
+Proof. exact finding_iff_never_copies. Qed.
+
+(* outside the findings a storing context omits the copy exactly for `x := T{...}` (a fresh literal) *)
+Theorem C07_clone_skip_exact : forall c sh e,
+  underlying_value sh = true -> stores c = true -> finding c = false ->
+  (copies_value c sh e = false <->
+   e = ECompLit /\ In c [CDefine; CVarDecl; CVarDeclInfer; CTupleDefine; CCommaOk; CTypeSwitchBind;
+                          CRangeValSlice; CRangeValArray; CRangeValPtrArray; CRangeValMap]).
+Proof. exact clone_skip_exact. Qed.
+Print Assumptions C07_clone_skip_exact.
+
+(* the aliasing half: for pointers, slices, maps and basic types no context ever emits a $clone or a copy *)
+Theorem C07_reference_shapes_never_copied : forall c sh e,
+  underlying_value sh = false -> site_counts c sh e = (0, 0) /\ copies_value c sh e = false.
+Proof. exact reference_shapes_never_copied. Qed.
+Print Assumptions C07_reference_shapes_never_copied.
+
+(* unbounded: a value that reaches the context through ANY number of `return`s (none of which copies) is copied by
+   the receiving context *)
+Theorem C07_clone_decision_flow_sound : forall f c sh,
+  underlying_value sh = true -> stores c = true -> finding c = false -> flow_aliases f = true ->
+  flow_copied sh f || copies_value c sh (flow_head f) = true.
+Proof. exact clone_decision_flow_sound. Qed.
+Theorem C07_return_never_copies : forall f sh, flow_copied sh f = false.
+Proof. exact return_never_copies. Qed.
+Print Assumptions C07_clone_decision_flow_sound.
+
+(* decision + heap model: in a context that decides for $clone, the run-time clone yields the source's deep value in
+   nodes disjoint from everything readable before (C07_clone_disjoint) *)
+Theorem C07_decided_clone_independent : forall c sh e t h src d nss,
+  underlying_value sh = true -> stores c = true -> finding c = false -> may_alias e = true ->
+  em_copies (decide c sh e) = 0 -> em_runtime (decide c sh e) = false ->
+  is_node t = true -> wf h -> R h t src d nss ->
+  0 < em_clones (decide c sh e) /\
+  exists cl h' nsc, clone t h src = Some (cl, h') /\ R h' t cl d nsc /\ R h' t src d nss /\
+    forall t' v' d' ns', R h t' v' d' ns' -> R h' t' v' d' ns' /\ (forall l, In l nsc -> ~ In l ns').
+Proof. exact decided_clone_independent. Qed.
+Print Assumptions C07_decided_clone_independent.
+
+Example C07_decision_nonvacuous :
+  site_counts CDefine ShNamedStruct EVar = (1, 0) /\ site_counts CDefine ShNamedStruct ECompLit = (0, 0) /\
+  site_counts CAssignField ShArray ECall = (0, 1) /\ site_counts CSend ShStruct EConvOther = (3, 0) /\
+  site_counts CBoxArg ShNamedStruct EVar = (0, 0) /\ site_counts CArg ShSlice EVar = (0, 0).
+Proof. exact decision_examples. Qed.
 
 (* Non-vacuity: for every array/struct shape the hypotheses of the clone theorems are satisfiable (the zero value
    in the empty heap), and a concrete nested shape evaluates. *)
